@@ -131,7 +131,7 @@ def ensure(run, names, force=False):
             if n not in todo:
                 todo.append(n)
         for n in todo:
-            if (force and n in names) or not _fresh(n):
+            if (force and n in names and not vlib.FINGERPRINT) or not _fresh(n):
                 t = time.time()
                 BUILDERS[n](run)
                 log("gen %s rebuilt in %.1fs" % (n, time.time() - t))
